@@ -271,6 +271,28 @@ def directed_cases(fam):
     # a layer without signal tracks used as the crossing layer
     nos = finish("no-signal-layer", (100, 100), [metal("h", 20, [E("s", 40), E("g", 60)]), metal("v", 20, [E("p", 40), E("g", 60)])], [(20, 20)])
     add("d_no_signal_cross", nos, [{"metals": 1, "outline": [2, 2], "insts": [], "cuts": [[0, 0, 1, 0]], "assigns": []}])
+    # ODD-WIDTH CROSSING NEXT TO A BLOCKED SPAN (DESIGN.md section 4 / 9, 2026-10-01): the crossing track has odd width, `center`
+    # rounds its centre (x.5) down to x, and an instance's blocked span ends or starts exactly at x.  Such an assignment is
+    # outside the well-formed space (clause crossing_clearb of assign_wfb); the cases are generated on purpose so that the
+    # evidence shows they are reached and classified "outside wf, not judged".  On the real code the net is lost (span ends
+    # at x) or lands on the piece that ends at x although the crossing lies inside the blocked span (span starts at x).
+    och = finish("odd-centre-h", (5, 10), [metal("h", 2, [E("s", 10)]), metal("v", 2, [E("g", 3), E("s", 5), E("g", 2)])], [(2, 2)])
+    ocv = finish("odd-centre-v", (10, 5), [metal("v", 2, [E("s", 10)]), metal("h", 2, [E("g", 3), E("s", 5), E("g", 2)])], [(2, 2)])
+    kid = {"metals": 1, "outline": [1, 1], "insts": [], "cuts": [], "assigns": []}
+    def occ(st, horiz, n_out, loc, refl, crosstrack):
+        outline = [n_out, 1] if horiz else [1, n_out]
+        i = {"cell": 0, "loc": [loc, 0] if horiz else [0, loc], "rh": refl and horiz, "rv": refl and not horiz}
+        return [copy.deepcopy(kid), {"metals": 2, "outline": outline, "insts": [i], "cuts": [], "assigns": [[1, 1, crosstrack, 0, 0]]}]
+    for st, horiz in ((och, True), (ocv, False)):
+        # rounded centre of cross track 0 is 5, of cross track 1 is 15; one instance box is 5 long
+        add("odd_crossing_at_block_end", st, occ(st, horiz, 2, 0, False, 0))   # box 0..5 ends at 5
+        add("odd_crossing_at_block_end", st, occ(st, horiz, 4, 1, False, 0))   # box 5..10 starts at 5
+        add("odd_crossing_at_block_end", st, occ(st, horiz, 4, 1, True, 0))    # reflected: box 0..5
+        add("odd_crossing_at_block_end", st, occ(st, horiz, 4, 2, True, 0))    # reflected: box 5..10
+        add("odd_crossing_at_block_end", st, occ(st, horiz, 4, 2, False, 1))   # box 10..15 ends at 15
+        add("odd_crossing_at_block_end", st, occ(st, horiz, 4, 3, False, 1))   # box 15..20 starts at 15
+        add("odd_crossing_clear_control", st, occ(st, horiz, 4, 2, False, 0))  # box 10..15, crossing at 5: well-formed
+        add("odd_crossing_clear_control", st, occ(st, horiz, 4, 0, False, 1))  # box 0..5, crossing at 15: well-formed
     return out
 
 # ------------------------------------------------------------------ known-finding classes (decidable on the case)
@@ -438,7 +460,7 @@ def nontrivial(case, r):
 
 def run(chk, replay=None):
     chk.proof_leg(["Tetris/CompileCheck.vo"], "Properties/C08.v",
-                  ["Tetris/Compile_proofs.v"], "Properties.C08")
+                  ["Tetris/Compile_proofs.v", "Tetris/CompileFull_proofs.v"], "Properties.C08")
     chk.assumptions += [
         "isize/usize overflow is not modelled (integers are Z); all coordinates of the run are below 2^31",
         "instances are absolutely placed (Placer::place is the identity on them and keeps their order); cells have a layout view with a rectangular outline, non-empty names, no `places`",
@@ -477,6 +499,15 @@ def run(chk, replay=None):
     chk.cov["impl_panic"] = sum(1 for r in results if result_kind(r[1]) == 2)
     chk.cov["outside_domain_silent"] = sum(1 for r in results if (r[0] // 10) & 1)
     chk.cov["spec_ambiguous"] = sum(1 for r in results if (r[0] // 10) & 2)
+    oc = [(c, r) for c, r in zip(cases, results) if c.get("kind") == "odd_crossing_at_block_end"]
+    occ = [(c, r) for c, r in zip(cases, results) if c.get("kind") == "odd_crossing_clear_control"]
+    chk.cov["odd_crossing_at_block_end"] = {
+        "what": "assignment whose crossing, rounded down by `center` (odd track width), sits on the end of an instance's blocked span; "
+                "outside the well-formed space (assign_wfb clause crossing_clearb): reported, not judged",
+        "cases": len(oc), "impl_ok": sum(1 for _, r in oc if result_kind(r[1]) == 0),
+        "classified_outside_wf_not_judged": sum(1 for _, r in oc if (r[0] // 10) & 1 and r[0] % 10 != 2),
+        "impl_equals_model": sum(1 for _, r in oc if r[0] % 10 == 0),
+        "controls_well_formed_and_judged_ok": sum(1 for _, r in occ if r[0] == 0), "controls": len(occ)}
     chk.cov["shapes_compared"] = sum(len(c) for r in results for c in r[1].get("ok", []))
     chk.add_samples([{"case": strip(c), "impl": r[1], "code": r[0]} for c, r in list(zip(cases, results))[:: max(1, len(cases) // 5)]], k=5)
     mism = [(c, r) for c, r in zip(cases, results) if r[0] % 10 == 1]
